@@ -42,6 +42,10 @@ class Representer:
         Returns:
             A yaml.Node representing the object.
         """
+        # PyYAML remembers the node made for this object under this key,
+        # and uses that node for any other references to the object
+        alias_key = dumper.alias_key
+
         # make a dict with attributes
         logger.info('Representing {} of class {}'.format(
             data, self.class_.__name__))
@@ -78,6 +82,9 @@ class Representer:
         self.__sweeten(dumper, self.class_, cnode)
         # __sweeten() checks this, so can cast safely
         represented = cast(yaml.Node, cnode.yaml_node)
+        if alias_key is not None:
+            # sweetening may have replaced the node
+            dumper.represented_objects[alias_key] = represented
 
         logger.debug('End representing {}'.format(data))
         return represented
